@@ -206,6 +206,9 @@ def LibStep (cfg : Cfg) (s : State) : Op → Prop
       LibRefSteps cfg o.cls o.id s refs ∧ LiveTarget (opRefSteps cfg s o.cls o.id refs).1 h
   | .pickle h _ => LiveTarget s h
   | .bulkDelete cls ids => ∀ h o, s.objs h = some o → o.obsolete = false → ¬ (o.cls = cls ∧ ids.contains o.id = true)
+  | .unpickle _ cls id snap clash => clash = false →
+      FreshOk s (some (cls, id)) ∧ ∃ row, s.db cls id = some row ∧
+        ∀ c v, snapCached (cfg.ncols cls) snap c = some v → v = cfg.dec cls c (row c)
   | .oobUpdate .. => False
   | .oobDelete .. => False
   | .oobInsert .. => False
@@ -547,6 +550,15 @@ theorem flag_destroyRefs (cfg : Cfg) (s : State) (h : Hnd) (refs : List RefStep)
     · exact flag_destroy _ _ _ (flag_refSteps _ _ _ _ _ hf)
     · exact flag_refSteps _ _ _ _ _ hf
 
+theorem flag_unpickle (cfg : Cfg) (s : State) (h : Hnd) (cls : Cls) (id : Id) (snap : Pend) (clash : Bool)
+    (hf : AllFlag cfg s) : AllFlag cfg (opUnpickle cfg s h cls id snap clash).1 := by
+  unfold opUnpickle
+  split
+  · exact hf
+  · split
+    · exact hf
+    · exact allFlag_register _ _ _ _ hf (flagOK_clean _ _ rfl rfl)
+
 /-- the flag discipline is preserved by EVERY operation, raw SQL included -/
 theorem flag_step (cfg : Cfg) (s : State) (op : Op) (hf : AllFlag cfg s) : AllFlag cfg (step cfg s op).1 := by
   cases op with
@@ -566,6 +578,7 @@ theorem flag_step (cfg : Cfg) (s : State) (op : Op) (hf : AllFlag cfg s) : AllFl
   | pickle h fail => exact flag_pickle _ _ _ _ hf
   | drop h => exact flag_drop _ _ _ hf
   | bulkDelete cls ids => exact allFlag_congr _ _ _ hf rfl
+  | unpickle h cls id snap clash => exact flag_unpickle _ _ _ _ _ _ _ hf
   | oobUpdate cls id c v => exact allFlag_congr _ _ _ hf rfl
   | oobDelete cls id => exact allFlag_congr _ _ _ hf rfl
   | oobInsert cls id vals =>
@@ -1262,6 +1275,25 @@ theorem inv_destroyRefs (cfg : Cfg) (s : State) (h : Hnd) (refs : List RefStep) 
     · exact inv_destroy _ _ _ (inv_refSteps _ _ _ _ _ hinv h1) h2
     · exact inv_refSteps _ _ _ _ _ hinv h1
 
+theorem inv_unpickle (cfg : Cfg) (s : State) (h : Hnd) (cls : Cls) (id : Id) (snap : Pend) (clash : Bool)
+    (hinv : OrmValInv cfg s) (hlib : LibStep cfg s (.unpickle h cls id snap clash)) :
+    OrmValInv cfg (opUnpickle cfg s h cls id snap clash).1 := by
+  unfold opUnpickle
+  split
+  · exact hinv
+  · rename_i hfree
+    split
+    · exact hinv
+    · rename_i hc
+      obtain ⟨hfresh, row, hrow, hsnap⟩ := hlib (by simpa using hc)
+      refine inv_register cfg s s _ h _ hinv (by simpa using hfree) rfl rfl rfl (fun c i _ => rfl) hfresh
+        (flagOK_clean _ _ rfl rfl) ?_
+      refine ⟨⟨row, hrow⟩, ?_⟩
+      intro _ c v row' hr hcv
+      simp only [register, unpickledInst] at hr hcv ⊢
+      rw [hrow] at hr; injection hr with hr; subst hr
+      rw [applyUpd_nil]; exact hsnap c v hcv
+
 /-- **the refinement invariant is preserved by every library operation** -/
 theorem inv_step (cfg : Cfg) (s : State) (op : Op) (hinv : OrmValInv cfg s) (hlib : LibStep cfg s op) :
     OrmValInv cfg (step cfg s op).1 := by
@@ -1281,6 +1313,7 @@ theorem inv_step (cfg : Cfg) (s : State) (op : Op) (hinv : OrmValInv cfg s) (hli
   | destroy h refs => exact inv_destroyRefs _ _ _ _ hinv hlib
   | pickle h fail => exact inv_pickle _ _ _ _ hinv hlib
   | drop h => exact inv_drop _ _ _ hinv
+  | unpickle h cls id snap clash => exact inv_unpickle _ _ _ _ _ _ _ hinv hlib
   | bulkDelete cls ids =>
     refine inv_dbagree _ _ _ hinv rfl ?_
     intro h o ho hl
